@@ -380,6 +380,8 @@ func runC11(c *Ctx) {
 			}
 			c.Check(okQ, fk(f, "ids-from-removal-queue"), d, "deleted ids are the elements consumed from the removal-time queue")
 		}
+		// ids beyond the per-block limit go back to the removal queue (not to another queue)
+		checkQueueBundles(c, "pk.Keeper.BeginBlockRemoveConsumers")
 	}
 	if f := c.Fn("pk.Keeper.DeleteConsumerChain"); f != nil {
 		isStopped := AEq("phase == STOPPED", PCall("pk.Keeper.GetConsumerPhase", -1, nil, nil, PParam("consumerId")), PConstInt(stopped))
@@ -402,10 +404,33 @@ func runC11(c *Ctx) {
 				c.Check(mustPassBefore(r, sps[0]), fk(f, "success-marks-deleted"), r, "a nil return implies the DELETED marker")
 			}
 		}
+		// the removal queue entry is consumed before the deletion is attempted and the driver
+		// discards the cached context on an error, so an error for a STOPPED consumer means the
+		// consumer is never deleted: for a STOPPED consumer the function must return nil
+		rets := reachableReturns(f, T(isStopped))
+		okNil := len(rets) > 0
+		var badRet ssa.Instruction = nil
+		for _, r := range rets {
+			if len(r.Results) != 1 {
+				okNil = false
+				continue
+			}
+			for _, rt := range roots(r.Results[0]) {
+				if !isNilConst(rt) {
+					okNil, badRet = false, r
+				}
+			}
+		}
+		if badRet == nil {
+			c.Check(okNil, fk(f, "stopped-consumer-deletion-cannot-fail"), f, fmt.Sprintf("under phase == STOPPED all %d reachable returns return the nil constant (a failed channel close is logged, not returned)", len(rets)))
+		} else {
+			c.Check(false, fk(f, "stopped-consumer-deletion-cannot-fail"), badRet, "under phase == STOPPED a return may carry "+describe(badRet.(*ssa.Return).Results[0])+"; the driver would discard the deletion and the consumed queue entry is never retried")
+		}
 	}
 
 	// ---- R5 ------------------------------------------------------------------------------------
 	c.Rule("R5", "exhaustive cleanup: every per-consumer key space (constructor with a consumerId parameter) is deleted by a function reachable from DeleteConsumerChain, or is listed as retained with a reason; the two reverse indexes and the queue entries are removed as well", 28)
+	checkIterDelete(c, 6, "pk")
 	dels := deletersOf(c)
 	for sp := range dels {
 		if strings.HasPrefix(sp, "?unknown") {
